@@ -13,7 +13,8 @@ from checks import c11, c13
 PID = "C14"
 RULE = (
     "Same models, schema and SDK documents as C13 (only documents of invariant-satisfying instances that validate are "
-    "used). ONE violating edit per document, chosen from the spec: the neutral instance gets a string / byte array / list "
+    "used). Up to 6 violating edits per document (each breaking ONE constraint; bounds that several declarations "
+    "contribute to first) plus one structural edit, chosen from the spec: the neutral instance gets a string / byte array / list "
     "one shorter than the recognised minimum or one longer than the maximum, or a string outside a recognised pattern "
     "(confirmed with Python re) - only for constraints declared in the class that declares the property itself or in a "
     "constrained primitive it uses (as value or list item) - and is serialised again by the SDK; or the XML text gets a "
@@ -62,8 +63,12 @@ def own_ref(spec: Any, cp_refs: Any, cname: str, pr: Any) -> Tuple[schemakit.Ref
     return r, excluded
 
 
-def edit_instance(spec: Any, cp_refs: Any, neutral: Any, a: int, b: int, ctx: Any) -> Optional[Tuple[str, Any]]:
-    """Return (edit name, edited neutral instance) for one own-class constraint of the root instance."""
+MAX_EDITS_PER_DOC = 6
+
+
+def edit_instance(spec: Any, cp_refs: Any, neutral: Any, a: int, b: int, ctx: Any) -> List[Tuple[str, Any]]:
+    """(edit name, edited neutral instance) for up to MAX_EDITS_PER_DOC own-class constraints of the root
+    instance, each edit breaking ONE constraint; bounds that several declarations contribute to come first."""
     cname = neutral["cls"]
     cands = []  # type: List[Tuple[str, Any]]
     for pr in spec.all_props(cname):
@@ -77,6 +82,8 @@ def edit_instance(spec: Any, cp_refs: Any, neutral: Any, a: int, b: int, ctx: An
         kind = core.name if core.kind == "prim" else (spec.cp_prim(core.name) if core.kind == "cp" else core.kind)
         lo, hi = r.len_range()
         where = "constrained-primitive" if core.kind == "cp" else "own-class"
+        if len({mx for _, mx, _ in r.len if mx is not None}) > 1 or len({mn for mn, _, _ in r.len if mn is not None}) > 1:
+            where += ":several-bounds"  # the tightest of several declared bounds is the one that counts
 
         def put(val: Any, pname: str = pr.name) -> Any:
             n = copy.deepcopy(neutral)
@@ -118,8 +125,11 @@ def edit_instance(spec: Any, cp_refs: Any, neutral: Any, a: int, b: int, ctx: An
                         cands.append(("item-string-outside-pattern:constrained-primitive", put([cand] + v[1:])))
                         break
     if not cands:
-        return None
-    return cands[a % len(cands)]
+        return []
+    k = a % len(cands)
+    cands = cands[k:] + cands[:k]
+    cands.sort(key=lambda c: 0 if c[0].endswith(":several-bounds") else 1)  # stable
+    return cands[:MAX_EDITS_PER_DOC]
 
 
 _TAG = re.compile(r"<(/?)([A-Za-z_][\w.-]*)((?: [^>]*?)?)(/?)>")
@@ -191,9 +201,7 @@ def evaluate(case: Dict[str, Any], base: Any, ctx: Any = None) -> List[Tuple[str
                 continue
             a, b = edits[idx % len(edits)] if edits else (0, 0)
             todo = []  # type: List[Tuple[str, str, bool]]
-            ei = edit_instance(spec, cp_refs, neutral, a, b, ctx)
-            if ei is not None:
-                name, edited = ei
+            for name, edited in edit_instance(spec, cp_refs, neutral, a, b, ctx):
                 try:
                     exml = p.sdk.xmlization.to_str(sdk.to_sdk(spec, p.sdk, edited))
                     todo.append((name, exml, True))
